@@ -88,14 +88,17 @@ func LengthEncodedString(data []byte) ([]byte, int, error) {
 	if isNull {
 		return nil, n, err
 	}
-
-	n += int(num)
-
-	// Check data length
-	if len(data) >= n {
-		return data[n-int(num) : n], n, nil
+	if err != nil {
+		return nil, n, err
 	}
-	return nil, n, io.EOF
+
+	// the length comes from the wire: compare as unsigned before converting to int,
+	// otherwise a 64-bit length overflows int and the slice expression below panics
+	if num > uint64(len(data)-n) {
+		return nil, n, io.EOF
+	}
+	n += int(num)
+	return data[n-int(num) : n], n, nil
 }
 
 // SkipLengthEncodedString https://dev.mysql.com/doc/internals/en/string.html#packet-Protocol::LengthEncodedString
@@ -107,13 +110,11 @@ func SkipLengthEncodedString(data []byte) (int, error) {
 	if num < 1 {
 		return n, nil
 	}
-
-	n += int(num)
-
-	if len(data) >= n {
-		return n, nil
+	// see LengthEncodedString: no int conversion before the range check
+	if num > uint64(len(data)-n) {
+		return n, io.EOF
 	}
-	return n, io.EOF
+	return n + int(num), nil
 }
 
 // PutLengthEncodedInt https://dev.mysql.com/doc/internals/en/integer.html#packet-Protocol::LengthEncodedInteger
